@@ -17,14 +17,14 @@ EXPLANATION = (
     "when connected, when an attempt is in flight (flag set before the first await and cleared on every exit incl. cancellation) or when closed; "
     "R5 once is_connected is True the read loop is scheduled before anything that may raise; R6 encode errors are skipped without reset, write "
     "errors reset; R7 subscriber isolation in the three _notify_subscribers (every callback result awaited inside a try whose catch-all handler "
-    "neither re-raises nor leaves the loop); R8 sole owners of open_connection / reader / writer. Liveness and real interleavings are not "
+    "neither re-raises nor leaves the loop); R8 sole owners of open_connection / reader / writer; R9 connection-state coherence: a forward dataflow over every method of the socket class with the abstract state (is_connected, writer present) shows that at every suspension point and at every exit `is_connected` holds exactly when a writer is stored (otherwise another task runs in a window where a send writes to no stream and is dropped, or a connect attempt passes the guard while the old stream is still held and is then orphaned). Liveness and real interleavings are not "
     "decided."
 )
 ASSUMPTIONS = [
     "library calls in the frozen no-raise table of sa/effects.py do not raise (logging, loop.time/create_task, set/deque ops, StreamWriter.write/close/is_closing)",
     "asyncio.open_connection / drain / wait_closed raise only OSError family; CancelledError is outside the lattice",
 ]
-FLOORS = {"C07.R1": 5, "C07.R2": 7, "C07.R3": 3, "C07.R4": 5, "C07.R5": 2, "C07.R6": 3, "C07.R7": 3, "C07.R8": 3}
+FLOORS = {"C07.R1": 5, "C07.R2": 7, "C07.R3": 3, "C07.R4": 5, "C07.R5": 2, "C07.R6": 3, "C07.R7": 3, "C07.R8": 3, "C07.R9": 4}
 
 
 def run(ctx):
@@ -36,6 +36,7 @@ def run(ctx):
     r6(ctx)
     r7(ctx)
     r8(ctx)
+    r9(ctx)
 
 
 def _reset_nodes(fn: Fn):
@@ -68,6 +69,12 @@ def r1(ctx):
     for h in handlers:
         types = h.meta["types"]
         is_incomplete = any(t.split(".")[-1] == "IncompleteReadError" for t in types)
+        others = [t for t in types if t.split(".")[-1] not in ("IncompleteReadError", "EOFError")]
+        if is_incomplete and others:
+            # the local-close exemption is sound for end-of-stream only: after a transport error (reset by peer, broken pipe)
+            # asyncio has already closed the transport, so `is_closing()` is true although the peer ended the connection
+            ctx.violation(R, f"_read:handler({h.label}):exemption-scope", m, h.ast, "the 'closed locally' exemption (writer gone or closing => no reset) covers end-of-stream (IncompleteReadError) only", "it also covers " + ", ".join(others) + ": a transport error leaves is_closing() true, so the dead link would never be reset")
+            is_incomplete = False
         via = set(reset_ids)
         if is_incomplete:
             # allowed to skip the reset only when we closed locally: `self._writer and not self._writer.is_closing()`
@@ -350,3 +357,178 @@ def r8(ctx):
                             if qual not in (f"{SOCK_CLS}._connect", f"{SOCK_CLS}._disconnect", f"{SOCK_CLS}.__init__"):
                                 bad.append(qual)
         ctx.check(count >= 3 and not bad, R, f"who-may-write:self.{attr}", m, None, f"self.{attr} assigned only in __init__, _connect, _disconnect", ", ".join(bad) or f"{count} assignments")
+
+
+# ------------------------------------------------------------------------------------------ R9
+_COHERENT = frozenset({("T", "S"), ("F", "N")})
+
+
+def _pair_text(st):
+    return ", ".join(f"(is_connected={'True' if c == 'T' else 'False'}, writer {'stored' if w == 'S' else 'None'})" for c, w in sorted(st))
+
+
+class _ConnState:
+    """Forward dataflow over one method: abstract state = set of (is_connected, writer) pairs.  Other tasks run only at
+    suspension points and are assumed to keep the invariant (induction over the methods of the class), so after an await the
+    state is any coherent pair; between awaits only this method's own assignments change it."""
+
+    def __init__(self, ctx, module, cls_name):
+        self.ctx, self.m, self.cls = ctx, module, cls_name
+        self.ci = module.get_class(cls_name)
+        self._summ = {}
+        self.violations = []  # (qual, node, state, kind)
+        self.points = 0
+
+    def fn(self, name):
+        return Fn(self.ctx.repo, self.m, f"{self.cls}.{name}", self.ctx.effects)
+
+    def _assign_effect(self, a, st):
+        pairs = []
+        if isinstance(a, ast.Assign):
+            from ..q import _pairs
+            for t in a.targets:
+                pairs += list(_pairs(t, a.value))
+        elif isinstance(a, ast.AnnAssign) and a.value is not None:
+            pairs = [(a.target, a.value)]
+        elif isinstance(a, ast.AugAssign):
+            pairs = [(a.target, ast.IfExp(test=ast.Constant(value=True), body=a.value, orelse=a.value))]
+        for t, v in pairs:
+            d = dotted(t)
+            if d == "self.is_connected":
+                if isinstance(v, ast.Constant) and isinstance(v.value, bool):
+                    st = frozenset({("T" if v.value else "F", w) for _, w in st})
+                else:
+                    st = frozenset({(c, w) for _, w in st for c in "TF"})
+            elif d == "self._writer":
+                if isinstance(v, ast.Constant) and v.value is None:
+                    st = frozenset({(c, "N") for c, _ in st})
+                elif isinstance(v, (ast.IfExp, ast.BoolOp)):
+                    st = frozenset({(c, w) for c, _ in st for w in "SN"})
+                else:
+                    st = frozenset({(c, "S") for c, _ in st})
+        return st
+
+    def _refine(self, test, truth, st):
+        d = dotted(test)
+        if d == "self.is_connected":
+            return frozenset(p for p in st if (p[0] == "T") == truth)
+        if d == "self._writer":
+            return frozenset(p for p in st if (p[1] == "S") == truth)
+        if isinstance(test, ast.Compare) and len(test.ops) == 1 and dotted(test.left) == "self._writer" and isinstance(test.comparators[0], ast.Constant) and test.comparators[0].value is None:
+            if isinstance(test.ops[0], (ast.Is, ast.Eq)):
+                return frozenset(p for p in st if (p[1] == "N") == truth)
+            if isinstance(test.ops[0], (ast.IsNot, ast.NotEq)):
+                return frozenset(p for p in st if (p[1] == "S") == truth)
+        return st
+
+    def _sync_self_calls(self, node):
+        out = []
+        a = node.ast
+        if a is None or node.kind in ("branch", "join", "handler") or "defn" in node.meta:
+            return out
+        probe = a
+        if node.kind == "for":
+            probe = a.iter
+        elif node.kind in ("with_enter",):
+            probe = ast.Tuple(elts=[i.context_expr for i in a.items], ctx=ast.Load())
+        elif node.kind == "match":
+            probe = a.subject
+        elif node.kind == "case":
+            probe = a.guard
+        if probe is None:
+            return out
+        awaited = {id(x.value) for x in walk_no_nested(probe) if isinstance(x, ast.Await)}
+        for x in walk_no_nested(probe):
+            if isinstance(x, ast.Call) and isinstance(x.func, ast.Attribute) and isinstance(x.func.value, ast.Name) and x.func.value.id == "self" and x.func.attr in self.ci.methods:
+                fnode = self.ci.methods[x.func.attr]
+                if isinstance(fnode, ast.FunctionDef) and id(x) not in awaited:
+                    out.append(x.func.attr)
+        return out
+
+    def summary(self, name, stack=()):
+        """pair -> set of pairs at the normal exit of a synchronous method"""
+        if name in self._summ:
+            return self._summ[name]
+        if name in stack:
+            return {p: frozenset({p}) for p in (("T", "S"), ("T", "N"), ("F", "S"), ("F", "N"))}
+        res = {}
+        for p in (("T", "S"), ("T", "N"), ("F", "S"), ("F", "N")):
+            res[p] = self.run(name, frozenset({p}), record=False, stack=stack + (name,))
+        self._summ[name] = res
+        return res
+
+    def run(self, name, entry, record=True, stack=()):
+        f = self.fn(name)
+        g = f.cfg
+        IN = {n.id: frozenset() for n in g.nodes}
+        IN[g.entry.id] = entry
+        work = [g.entry.id]
+        while work:
+            nid = work.pop()
+            n = g.nodes[nid]
+            st = IN[nid]
+            mid = st
+            if n.awaits:
+                mid = _COHERENT  # other tasks have run; they keep the invariant
+            out = mid
+            for callee in self._sync_self_calls(n):
+                sm = self.summary(callee, stack)
+                out = frozenset(q for p in out for q in sm[p])
+            mid = mid | out  # an exception leaves the statement before its own stores happen (the right-hand side is evaluated first)
+            if n.kind == "stmt" and n.ast is not None and "defn" not in n.meta:
+                out = self._assign_effect(n.ast, out)
+            if n.kind == "branch":
+                out = self._refine(n.ast, n.label == "true", out)
+            for lbl, s in n.succ:
+                prop = mid if lbl == "exc" else out
+                if not prop <= IN[s]:
+                    IN[s] = IN[s] | prop
+                    work.append(s)
+        if record:
+            for n in g.nodes:
+                if n.awaits and IN[n.id]:
+                    self.points += 1
+                    bad = IN[n.id] - _COHERENT
+                    if bad:
+                        self.violations.append((f, n, bad, "suspends"))
+            for ex, what in ((g.exit, "returns"), (g.raise_exit, "raises")):
+                if IN[ex.id]:
+                    self.points += 1
+                    bad = IN[ex.id] - _COHERENT
+                    if bad:
+                        self.violations.append((f, ex, bad, what))
+        return IN[g.exit.id]
+
+
+def r9(ctx, rule="C07.R9"):
+    R = rule
+    m = ctx.repo.module(SOCKET)
+    ci = m.get_class(SOCK_CLS)
+    an = _ConnState(ctx, m, SOCK_CLS)
+    writers = 0
+    for name, fnode in ci.methods.items():
+        if name == "__init__":
+            continue
+        if any(isinstance(x, ast.Attribute) and x.attr in ("is_connected", "_writer") and isinstance(x.ctx, ast.Store) for x in ast.walk(fnode)):
+            writers += 1
+        an.run(name, _COHERENT)
+    ctx.require(writers >= 2, "socket: fewer than two methods assign is_connected/_writer (C07.R9 has nothing to analyse)")
+    # __init__ establishes the invariant
+    init = an.run("__init__", frozenset({("F", "N")}), record=False) if "__init__" in ci.methods else frozenset()
+    ctx.check(bool(init) and init <= _COHERENT, R, "coherence:__init__", m, ci.methods.get("__init__"), "a new socket is not connected and holds no writer", _pair_text(init))
+    by = {"connected-implies-writer": [], "writer-implies-connected": []}
+    for f, n, bad, what in an.violations:
+        for c, w in bad:
+            by["connected-implies-writer" if (c, w) == ("T", "N") else "writer-implies-connected"].append((f, n, what))
+    exp = {
+        "connected-implies-writer": "whenever another task can run (at every await and after every return) is_connected is True only while a writer is stored - otherwise a send in that window pops its message, finds no stream and drops it",
+        "writer-implies-connected": "whenever another task can run (at every await and after every return) a stored writer means is_connected is True - otherwise a connect attempt passes the `is_connected` guard while the old stream is still held, and one of the two connections is orphaned",
+    }
+    for k, lst in by.items():
+        if lst:
+            for f, n, what in lst[:3]:
+                at = n.ast if n.ast is not None else f.node
+                ctx.violation(R, f"coherence:{k}", m, at, exp[k], f"{f.qual} {what} at line {getattr(at, 'lineno', '?')} in a state where this does not hold")
+        else:
+            ctx.check(True, R, f"coherence:{k}", m, None, exp[k], "")
+    ctx.check(an.points >= 10, R, "coherence:suspension-points-analysed", m, None, "every await and exit of every socket method was evaluated", f"{an.points} points")
